@@ -898,21 +898,24 @@ Proof.
   eapply finish_set; eauto.
 Qed.
 
-(** the index is not a bare scalar applied to an inner array axis (there numpy transposes the inserted block) *)
-Definition scalar_free (o : objarg) (d : nat) : Prop := match o, d with OInt _, S _ => False | _, _ => True end.
-Lemma np_insert_t_general d o sh t vsh vv : scalar_free o d ->
+(** every kind of index (scalar, slice, list, mask) on every array axis follows the same insertion plan *)
+Lemma np_insert_t_general d o sh t vsh vv :
   np_insert_t d o sh t vsh vv =
   match plan_insert (nth d sh O) (nth d vsh O) o, bcast (upd d (nth d vsh O) sh) vsh vv with
   | Some ps, Some v' => Some (t_pick d ps (t_cat d t v'), upd d (length ps) sh)
   | _, _ => None end.
-Proof. unfold np_insert_t, scalar_free. destruct o; destruct d; try reflexivity; contradiction. Qed.
+Proof. reflexivity. Qed.
+(** the FORMER code agreed with it except for a bare scalar applied to an inner array axis *)
+Definition scalar_free (o : objarg) (d : nat) : Prop := match o, d with OInt _, S _ => False | _, _ => True end.
+Lemma old_np_insert_t_general d o sh t vsh vv : scalar_free o d -> old_np_insert_t d o sh t vsh vv = np_insert_t d o sh t vsh vv.
+Proof. unfold old_np_insert_t, np_insert_t, scalar_free. destruct o; destruct d; try reflexivity; contradiction. Qed.
 
-Lemma insert_data_rep pols o t sh : RepOpd pols c k s v ess us -> scalar_free o a ->
+Lemma insert_data_rep pols o t sh : RepOpd pols c k s v ess us ->
   np_insert_t a o (shape s) (data s) (o_shape v) (o_data v) = Some (t, sh) ->
   exists ps, plan_insert (length es) (length us) o = Some ps /\
              t = build (upd a (pick ps (es ++ us)) ess) val /\ sh = map (@length ent) (upd a (pick ps (es ++ us)) ess).
 Proof.
-  intros RO SF H. rewrite np_insert_t_general in H by assumption.
+  intros RO H. rewrite np_insert_t_general in H.
   pose proof a_lt as Ha.
   assert (Ek : nth a (o_shape v) O = length us).
   { rewrite (ro_shape _ _ _ _ _ _ _ RO), (taxis_of_taxes c k a [] Ht). change O with (length (@nil ent)). now rewrite map_nth, nth_upd_eq. }
@@ -934,16 +937,16 @@ Proof.
   now rewrite <- map_app, pick_map.
 Qed.
 
-Theorem insert_refines o s' : RepOpd (pol_ins (sch c k)) c k s v ess us -> scalar_free o a -> op_insert c s k o v = OK s' ->
+Theorem insert_refines o s' : RepOpd (pol_ins (sch c k)) c k s v ess us -> op_insert c s k o v = OK s' ->
   exists ps, plan_insert (length es) (length us) o = Some ps /\
              Rep c s' (upd a (pick ps (es ++ us)) ess) /\ (drop_other c = false -> no_loss s s').
 Proof.
-  intros RO SF H. unfold op_insert, pre_binary in H. destruct (shapes_compat _ _ _); [|discriminate].
+  intros RO H. unfold op_insert, pre_binary in H. destruct (shapes_compat _ _ _); [|discriminate].
   destruct (resolve_all _ _ c k v O _) as [gs|] eqn:Er; [|discriminate]. cbn in H.
   rewrite (taxis_of_taxes c k a [] Ht) in H.
   destruct (np_insert_t a o _ _ _ _) as [[t sh]|] eqn:Ed; [|discriminate].
   destruct (join_labs _ _ gs) as [l|] eqn:Ej; [|discriminate].
-  destruct (insert_data_rep _ o t sh RO SF Ed) as (ps & Hp & Htt & Hsh). exists ps. split; [assumption|].
+  destruct (insert_data_rep _ o t sh RO Ed) as (ps & Hp & Htt & Hsh). exists ps. split; [assumption|].
   assert (Hlen : length (pol_ins (sch c k)) = length (labs (ax_of s k))).
   { rewrite (r_nf _ _ _ _ _ R k Hk). apply pol_lengths. }
   assert (Hk0 : nth (taxis c k) (o_shape v) O = length us).
@@ -957,16 +960,16 @@ Proof.
   replace (upd a (pick ps (es ++ us)) ess) with (upd_all (taxes c k) (pick ps (es ++ us)) ess) in * by (rewrite Ht; reflexivity).
   eapply finish_new; eauto.
 Qed.
-Theorem incorp_refines o s' : RepOpd (pol_adj (sch c k)) c k s v ess us -> scalar_free o a -> op_incorp c s k o v = OK s' ->
+Theorem incorp_refines o s' : RepOpd (pol_adj (sch c k)) c k s v ess us -> op_incorp c s k o v = OK s' ->
   exists ps, plan_insert (length es) (length us) o = Some ps /\
              Rep c s' (upd a (pick ps (es ++ us)) ess) /\ no_loss s s'.
 Proof.
-  intros RO SF H. unfold op_incorp, pre_binary in H. destruct (shapes_compat _ _ _); [|discriminate].
+  intros RO H. unfold op_incorp, pre_binary in H. destruct (shapes_compat _ _ _); [|discriminate].
   destruct (resolve_all _ _ c k v O _) as [gs|] eqn:Er; [|discriminate]. cbn in H.
   rewrite (taxis_of_taxes c k a [] Ht) in H.
   destruct (np_insert_t a o _ _ _ _) as [[t sh]|] eqn:Ed; [|discriminate].
   destruct (join_labs_inplace _ _ gs) as [l|] eqn:Ej; [|discriminate]. inversion H; subst s'.
-  destruct (insert_data_rep _ o t sh RO SF Ed) as (ps & Hp & Htt & Hsh). exists ps. split; [assumption|].
+  destruct (insert_data_rep _ o t sh RO Ed) as (ps & Hp & Htt & Hsh). exists ps. split; [assumption|].
   assert (Hlen : length (pol_adj (sch c k)) = length (labs (ax_of s k))).
   { rewrite (r_nf _ _ _ _ _ R k Hk). apply pol_lengths. }
   assert (Hk0 : nth (taxis c k) (o_shape v) O = length us).
@@ -1070,23 +1073,52 @@ Proof.
   apply construct_ok in H. subst s'. now rewrite new_axes_eq_set_axes.
 Qed.
 
-(** * where the code departs from the property (witnesses by computation) *)
+(** * a scalar index is a one-element index list (the repaired insert_<axis> / incorp_<axis>) *)
+Lemma mapM_ext {A B} (f g : A -> option B) (l : list A) : (forall x, f x = g x) -> mapM f l = mapM g l.
+Proof. intros H. induction l as [|x t IH]; cbn; [reflexivity|]. now rewrite H, IH. Qed.
+Lemma plan_insert_scalar n k i : plan_insert n k (OInt i) = plan_insert n k (OList [i]).
+Proof. unfold plan_insert, ins_positions. cbn. destruct (norm_ins n i); reflexivity. Qed.
+Lemma np_insert_scalar {A} i (g l : list A) : np_insert (OInt i) g l = np_insert (OList [i]) g l.
+Proof. unfold np_insert. now rewrite plan_insert_scalar. Qed.
+Lemma np_insert_t_scalar d i sh t vsh vv : np_insert_t d (OInt i) sh t vsh vv = np_insert_t d (OList [i]) sh t vsh vv.
+Proof. unfold np_insert_t. now rewrite plan_insert_scalar. Qed.
+Lemma join_labs_scalar i owns gs :
+  join_labs (fun gl l => np_insert (OInt i) gl l) owns gs = join_labs (fun gl l => np_insert (OList [i]) gl l) owns gs.
+Proof. unfold join_labs. apply mapM_ext. intros [[l|] [g0|]]; cbn [fst snd]; try reflexivity; now rewrite np_insert_scalar. Qed.
+Lemma join_labs_inplace_scalar i owns gs :
+  join_labs_inplace (fun gl l => np_insert (OInt i) gl l) owns gs = join_labs_inplace (fun gl l => np_insert (OList [i]) gl l) owns gs.
+Proof. unfold join_labs_inplace. apply mapM_ext. intros [[l|] [g0|]]; cbn [fst snd]; try reflexivity; now rewrite np_insert_scalar. Qed.
+Theorem insert_scalar_as_list c s k i v : op_insert c s k (OInt i) v = op_insert c s k (OList [i]) v.
+Proof.
+  unfold op_insert. destruct (pre_binary c s k v (pol_ins (sch c k))) as [g|]; [|reflexivity]. cbn [bind].
+  now rewrite np_insert_t_scalar, join_labs_scalar.
+Qed.
+Theorem incorp_scalar_as_list c s k i v : op_incorp c s k (OInt i) v = op_incorp c s k (OList [i]) v.
+Proof.
+  unfold op_incorp. destruct (pre_binary c s k v (pol_adj (sch c k))) as [g|]; [|reflexivity]. cbn [bind].
+  now rewrite np_insert_t_scalar, join_labs_inplace_scalar.
+Qed.
+
+(** * where the code departs from the property, and where it formerly did (witnesses by computation) *)
 Definition w_val (l : list nat) : Z := match l with [r; c] => Z.of_nat (10 * r + c) | _ => 0 end.
 Definition w_lbl (k j : nat) (e : nat) : lab := Some (Z.of_nat (100 * k + e)).
 Definition w_ax (k nf : nat) (es : list nat) : axst := mkax (map (fun j => Some (map (w_lbl k j) es)) (seq 0 nf)) None None None None.
 
-(** 1. a bare integer index on the variant axis (array axis 1): the inserted block arrives transposed *)
+(** 1. a bare integer index on the variant axis (array axis 1): the block is inserted as it is, exactly as with the
+    index list [1]; under the FORMER code ([old_op_insert]) it arrived transposed *)
 Definition w1_s : st := mkst [2; 3]%nat (build [[0; 1]; [0; 1; 2]]%nat w_val) [w_ax 0 2 [0; 1]%nat; w_ax 1 9 [0; 1; 2]%nat].
 Definition w1_v : operand := mkopd [2; 2]%nat (build [[0; 1]; [5; 6]]%nat w_val) [w_ax 0 2 [0; 1]%nat; w_ax 1 9 [5; 6]%nat] true (repeat None 9).
-Lemma scalar_insert_refuted :
+Lemma scalar_insert_witness :
   Rep w_val w_lbl cDenseTaxaVariantMatrix w1_s [[0; 1]; [0; 1; 2]]%nat /\
   RepOpd w_val w_lbl (pol_ins (sch cDenseTaxaVariantMatrix 1)) cDenseTaxaVariantMatrix 1 w1_s w1_v [[0; 1]; [0; 1; 2]]%nat [5; 6]%nat /\
   (exists s', op_insert cDenseTaxaVariantMatrix w1_s 1 (OList [1]) w1_v = OK s' /\
               data s' = build [[0; 1]; [0; 5; 6; 1; 2]]%nat w_val) /\
   (exists s', op_insert cDenseTaxaVariantMatrix w1_s 1 (OInt 1) w1_v = OK s' /\
+              data s' = build [[0; 1]; [0; 5; 6; 1; 2]]%nat w_val /\ data s' = T2 [[0; 5; 6; 1; 2]; [10; 15; 16; 11; 12]]) /\
+  (exists s', old_op_insert cDenseTaxaVariantMatrix w1_s 1 (OInt 1) w1_v = OK s' /\
               data s' <> build [[0; 1]; [0; 5; 6; 1; 2]]%nat w_val /\ data s' = T2 [[0; 5; 15; 1; 2]; [10; 6; 16; 11; 12]]).
 Proof.
-  split; [|split; [|split]].
+  split; [|split; [|split; [|split]]].
   - split; try reflexivity.
     + intros k a H. destruct k as [|[|k]]; cbn in H;
         [destruct H as [<-|[]]; reflexivity | destruct H as [<-|[]]; reflexivity | destruct k; destruct H].
@@ -1096,6 +1128,7 @@ Proof.
       * do 9 (destruct j as [|j]; [cbn in E; inversion E; reflexivity|]). destruct j; discriminate.
   - split; try reflexivity. intros j Hj. cbn in Hj. do 9 (destruct j as [|j]; [cbn; reflexivity|]). lia.
   - eexists. split; [vm_compute; reflexivity|vm_compute; reflexivity].
+  - eexists. split; [vm_compute; reflexivity|]. split; vm_compute; reflexivity.
   - eexists. split; [vm_compute; reflexivity|]. split; [vm_compute; discriminate|vm_compute; reflexivity].
 Qed.
 
